@@ -940,7 +940,9 @@ class Exec:
         finally:
             if kcur is not None:
                 kcur.atomic -= 1
-        if first is not None and self.prev_parse is not None and self.prev_parse[0] != report:
+        # (compared without the stamp lines: whether two reports of the same content differ in their 'Calculation Time' is not
+        # under the simulation's control)
+        if first is not None and self.prev_parse is not None and canon_report(self.prev_parse[0]) != canon_report(report):
             # parser state must be per instance: parsing another report in between must not change what an earlier report
             # parses to
             pp = os.path.join(self.sb, 'tmp', 'parse_prev.out')
